@@ -25,7 +25,7 @@ TITLE = 'Range and conditional requests describe exactly the bytes delivered'
 ENGINE = 'E-ENUM (file lengths x Range token strings x conditional dates x method, through the default application)'
 RULE = ('states = distinct (file length, Range header, If-Modified-Since, method) requests; transitions = WSGI calls; '
         'non-trivial = requests whose Range header is present and not a plain in-bounds a-b')
-ASSUMPTIONS = ['TZ=UTC; file mtime set by the harness to a whole second',
+ASSUMPTIONS = ['file mtime set by the harness to a whole second; process time zones from a list of five POSIX TZ strings',
                'a reversed or non-grammar Range may be answered 416 or ignored (200); RFC 7233 allows both readings',
                'only the first range of a multi-range request is served (as the statement says)']
 MANIFEST = {
@@ -94,6 +94,7 @@ def shards(tier, seed):
         for t0 in TOKENS:
             out.append(('tok', n, t0, k))
     out.append(('misc', None, None, None))
+    out.append(('tz', None, None, None))
     MB = 1 << 20
     for n in (MB - 1, MB, MB + 1, MB * 5 // 2):
         out.insert(0, ('big', n, None, None))
@@ -104,10 +105,10 @@ def shards(tier, seed):
 
 def bounds(tier, seed):
     return {'tokens': TOKENS, 'max_tokens': 4 if tier == 'quick' else 5, 'file_lengths': '0..12 (buffer 4) and 2^20-1, 2^20, 2^20+1, 2.5*2^20',
-            'if_modified_since': ['absent', 'mtime-1', 'mtime', 'mtime+1', 'garbage'], 'methods': ['GET', 'HEAD']}
+            'if_modified_since': ['absent', 'mtime-1', 'mtime', 'mtime+1', 'garbage'], 'process_time_zones': ZONES, 'methods': ['GET', 'HEAD']}
 
 
-FLOORS = {'r206': 1000, 'r416': 1000, 'r304': 20, 'r200': 20, 'head_pairs': 100, 'multi_chunk_206': 50,
+FLOORS = {'tz_cases': 50, 'r206': 1000, 'r416': 1000, 'r304': 20, 'r200': 20, 'head_pairs': 100, 'multi_chunk_206': 50,
           'canonical_sat': 200, 'canonical_unsat': 100}
 
 
@@ -132,13 +133,15 @@ class Ctx:
             self.app._c17_root[0] = root
         self.made = {}
 
+    mtime = MTIME
+
     def file(self, n):
         if n not in self.made:
             p = os.path.join(self.T, f'f{n}.bin')
             with open(p, 'wb') as f:
                 f.write(content(n))
-            os.utime(p, (MTIME, MTIME))
             self.made[n] = p
+        os.utime(self.made[n], (self.mtime, self.mtime))
         return f'f{n}.bin'
 
     def small_buffer(self, on):
@@ -158,8 +161,16 @@ class Ctx:
         return wsgi.call(self.app, env)
 
 
-IMS = {'absent': None, 'before': formatdate(MTIME - 1, usegmt=True), 'equal': formatdate(MTIME, usegmt=True),
-       'after': formatdate(MTIME + 1, usegmt=True), 'garbage': 'yesterday-ish'}
+IMS = ['absent', 'before', 'equal', 'after', 'garbage']
+
+
+def ims_value(kind, mtime=MTIME):
+    return {'absent': None, 'before': formatdate(mtime - 1, usegmt=True), 'equal': formatdate(mtime, usegmt=True),
+            'after': formatdate(mtime + 1, usegmt=True), 'garbage': 'yesterday-ish'}[kind]
+
+
+ZONES = ['CET-1CEST,M3.5.0,M10.5.0/3', 'EST5EDT,M3.2.0,M11.1.0', 'IST-5:30', 'NZST-12NZDT,M9.5.0,M4.1.0/3', 'UTC0']
+SEASONS = {'july': 1625140800, 'january': 1610712000}
 
 
 def judge(c, n, rng, ims_kind, method, buf):
@@ -222,11 +233,13 @@ def hdrs_for_compare(c):
     return sorted((k, v) for k, v in (c.headers or []) if k.lower() != 'date')
 
 
-def one(res, ctx, n, rng, ims_kind, buf, with_head):
+def one(res, ctx, n, rng, ims_kind, buf, with_head, extra=None):
     c = res['counters']
     case = {'n': n, 'range': rng, 'ims': ims_kind, 'buf': buf}
+    if extra:
+        case.update(extra)
     core.track(res, case)
-    g = ctx.get(n, rng, IMS[ims_kind], 'GET')
+    g = ctx.get(n, rng, ims_value(ims_kind, ctx.mtime), 'GET')
     res['states'] += 1
     res['transitions'] += 1
     v = judge(g, n, rng, ims_kind, 'GET', buf)
@@ -242,7 +255,7 @@ def one(res, ctx, n, rng, ims_kind, buf, with_head):
             res['nontrivial'] += 1
     res['outcomes'].add(f'{code} {"ok" if v is None else v[0]}')
     if v is None and with_head:
-        h = ctx.get(n, rng, IMS[ims_kind], 'HEAD')
+        h = ctx.get(n, rng, ims_value(ims_kind, ctx.mtime), 'HEAD')
         res['transitions'] += 1
         c['head_pairs'] += 1
         v = judge(h, n, rng, ims_kind, 'HEAD', buf)
@@ -290,6 +303,29 @@ def work(spec):
                     for ik in IMS:
                         one(res, ctx, n, rng, ik, BUF, with_head=True)
             core.add_sample(res, {'misc_ranges': rngs, 'ims': list(IMS)})
+        elif kind == 'tz':
+            # the server process may run in any time zone: conditional requests must not depend on it
+            import time
+            ctx.small_buffer(True)
+            old = os.environ.get('TZ')
+            try:
+                for zone in ZONES:
+                    os.environ['TZ'] = zone
+                    time.tzset()
+                    for season, mt in SEASONS.items():
+                        ctx.mtime = mt
+                        for n in (0, 5):
+                            for ik in IMS:
+                                v = one(res, ctx, n, None, ik, BUF, with_head=True, extra={'zone': zone, 'mtime': mt})
+                                res['counters']['tz_cases'] += 1
+            finally:
+                if old is None:
+                    os.environ.pop('TZ', None)
+                else:
+                    os.environ['TZ'] = old
+                time.tzset()
+                ctx.mtime = MTIME
+            core.add_sample(res, {'zones': ZONES, 'mtimes': SEASONS})
         else:   # big files, default buffer
             ctx.small_buffer(False)
             MB = 1 << 20
@@ -306,20 +342,33 @@ def work(spec):
 
 
 def replay(case):
+    import time
     ctx = Ctx()
+    old = os.environ.get('TZ')
     try:
+        if case.get('zone'):
+            os.environ['TZ'] = case['zone']
+            time.tzset()
+            ctx.mtime = case['mtime']
         buf = case['buf']
         ctx.small_buffer(buf == BUF)
         n, rng, ik = case['n'], case['range'], case['ims']
-        g = ctx.get(n, rng, IMS[ik], 'GET')
+        g = ctx.get(n, rng, ims_value(ik, ctx.mtime), 'GET')
         v = judge(g, n, rng, ik, 'GET', buf)
         if v is None and case.get('head'):
-            h = ctx.get(n, rng, IMS[ik], 'HEAD')
+            h = ctx.get(n, rng, ims_value(ik, ctx.mtime), 'HEAD')
             v = judge(h, n, rng, ik, 'HEAD', buf)
             if v is None and (h.status != g.status or hdrs_for_compare(h) != hdrs_for_compare(g) or h.body):
                 v = ('head-differs', f'HEAD gives {h.status} {hdrs_for_compare(h)} body={h.body!r}; GET gives {g.status} {hdrs_for_compare(g)}')
         if v is None:
             return None
-        return f'{n}-byte file, Range={rng!r}, If-Modified-Since={ik}: {v[1]}'
+        z = f' (process TZ={case["zone"]}, mtime={formatdate(case["mtime"], usegmt=True)})' if case.get('zone') else ''
+        return f'{n}-byte file, Range={rng!r}, If-Modified-Since={ik}{z}: {v[1]}'
     finally:
+        if case.get('zone'):
+            if old is None:
+                os.environ.pop('TZ', None)
+            else:
+                os.environ['TZ'] = old
+            time.tzset()
         ctx.close()
